@@ -162,3 +162,12 @@ CHECKS["C09"] = {
     "note": _FRAG_NOTE + " Depth is bounded (3 quick / 6 thorough); beyond that the argument is the uniformity of the counter rows, which is not mechanised.",
 }
 NOT_APPLICABLE.pop("C09", None)
+CHECKS["C04"] = {
+    "engine": "E3 lexmodel x E4 deriv (alter / index fragment) x objabs (output layer evaluated abstractly) + E5 registry rules",
+    "category": "model_checking",
+    "technique": "static fixed point over every ALTER / CREATE INDEX form x every way of writing the target, followed by abstract interpretation of Output.format on [three same-named tables, statement] and comparison of the final entries with property-level expectations; registry key lint",
+    "text": "For a script of three tables sharing one name (two schemas and none) and every supported ALTER TABLE / CREATE INDEX statement with its target written in any quoting style or letter case: exactly the named table changes and the other entries equal their stand-alone output; columns are added / dropped / renamed / modified as declared, a single-column ADD UNIQUE flags that column, ADD DEFAULT ... FOR sets that column's default, the alter section records the declared names and values, an index records name, uniqueness, ordered columns and direction; a statement naming an undefined table raises. Decided on the final output, not on the parse result.",
+    "design_ref": "DESIGN.md section 4 C04",
+    "note": _FRAG_NOTE + " The output layer (Output, TableData, BaseData, per-mode dataclasses) is evaluated by the object-capable abstract interpreter on the lock-step values. Known finding: NOT NULL / NULL after ALTER ... ADD column.",
+}
+NOT_APPLICABLE.pop("C04", None)
